@@ -49,6 +49,8 @@ lazy_static! {
 }
 
 pub(crate) mod test;
+#[cfg(feature = "verif-hooks")]
+pub(crate) mod verif_hooks;
 
 /// Events that can be produced by the `Discv5` event stream.
 #[derive(Debug)]
